@@ -6,6 +6,17 @@ from concurrent.futures import ThreadPoolExecutor
 import vlib
 from vlib import clist, cbool, cnat, cn
 
+# other public entry points of Optimize (tiny budgets for the scipy based ones)
+FOREIGN = [("run_simplex", {"n_steps": 4}), ("run_simplex", {"n_steps": 12}), ("run_nelder_mead", {"n_steps": 3}),
+           ("run_ls_trf", {"n_steps": 2}), ("run_ls_dogbox", {"n_steps": 2}), ("run_bfgs", {"n_steps": 1}),
+           ("run_l_bfgs_b", {"n_steps": 1}), ("run_direct", {"n_steps": 1}),
+           ("get_merit_function", {}), ("get_merit_function", {"return_scalar": True}),
+           ("get_merit_function", {"check_limits": False}), ("get_merit_function", {"rescale_x": [0.0, 1.0]}),
+           ("target_status", {}), ("vary_status", {}), ("target_mismatch", {}), ("log", {}), ("show", {}),
+           ("get_knob_values", {}), ("set_knobs_from_x", {}),
+           ("enable_all_targets", {}), ("disable_all_targets", {}), ("enable_all_vary", {}), ("disable_all_vary", {}),
+           ("enable_vary", {"id": 0}), ("disable_vary", {"id": 0}), ("enable_targets", {"id": 0}), ("disable_targets", {"id": 0}),
+           ("run_jacobian", {"n": 2}), ("add_point_to_log", {"tag": "t1"})]
 TAGS_V = ["", "a", "b"]
 TAGS_T = ["", "p", "q"]
 ROW_TAGS = ["t1", "t2"]
@@ -63,6 +74,8 @@ def eval_fun(spec, k):
                 ph += spec["U"][i][j] * k[j]
             v += spec["T"][i] * math.sin(ph)
         out.append(v)
+    for i in spec.get("pos", []):
+        out[i] = 0.5 + out[i] * out[i]
     return out          # (the singular terms spec["S"] are added by the runner only)
 
 
@@ -126,6 +139,14 @@ def gen_case(rng, profile):
         if check_limits and lj is not None and lj[1] is not None and math.isfinite(lj[1]):
             x0[j] = lj[1] + 0.5      # the constructor must refuse a start outside the limits
             vary[j]["active"] = True
+    # Target(optimize_log=True): the result of that target is made strictly positive
+    fun["pos"] = []
+    log_targets = set()
+    if rng.random() < {"C10": 0.22, "C09": 0.07, "C15": 0.07}[profile]:
+        for i in rng.sample(range(m), rng.choice([1, 1, 2]) if m >= 2 else 1):
+            log_targets.add(i)
+            if rng.random() < 0.9:
+                fun["pos"].append(i)        # (10%: the result may be non-positive: the assertion of the source)
     vals = eval_fun(fun, kstar)
     targets = []
     for i in range(m):
@@ -135,8 +156,10 @@ def gen_case(rng, profile):
         tol = rng.choice([1e-10, 1e-8, 1e-8, 1e-6, 1e-4, 1e-2, 0.3])
         if rng.random() < 0.05:
             tol = 1e-15
+        if i in log_targets and not v > 0:
+            v = abs(v) + 0.1
         targets.append({"value": v, "tol": tol, "weight": rng.choice([1.0, 1.0, 1.0, 0.5, 2.0, 10.0, 1e3, 1e-2]),
-                        "tag": rng.choice(TAGS_T)})
+                        "tag": rng.choice(TAGS_T), "optimize_log": i in log_targets})
     if rng.random() < 0.12:
         j = rng.randrange(n)
         d = 1 if kstar[j] >= x0[j] else -1
@@ -199,7 +222,7 @@ def gen_case(rng, profile):
     if profile == "C10" and m >= 2 and mode < 0.3:
         # twin experiment: target j is disabled (persistently, or by every step's
         # disable_target argument) and its component differs between the two runs
-        j = rng.randrange(m)
+        j = rng.choice(sorted(log_targets)) if (log_targets and rng.random() < 0.7) else rng.randrange(m)
         twin = [j, rnd(rng, 0.3, 2.0)]
         opts["restore_if_fail"] = False
         if rng.random() < 0.5:
@@ -253,6 +276,58 @@ def gen_case(rng, profile):
             else:
                 ops.append(["clear"])
                 rows_est = 1
+    # ---- "reconfigure between calls": attributes of the public Target / Vary objects re-assigned on the live optimizer
+    def gen_set():
+        k = rng.random()
+        if k < 0.3:
+            i = rng.randrange(m)
+            t0 = targets[i]["tol"] or 1e-6
+            return ["set", "target", i, "tol", rng.choice([t0 * 1e-4, t0 * 1e-2, t0 * 1e-6, t0 * 100, 1e-12, 0.3])]
+        if k < 0.42:
+            i = rng.randrange(m)
+            v = targets[i]["value"] + rnd(rng, -0.3, 0.3)
+            return ["set", "target", i, "value", (abs(v) + 0.05) if targets[i]["optimize_log"] else v]
+        if k < 0.52:
+            return ["set", "target", rng.randrange(m), "weight", rng.choice([1.0, 0.5, 2.0, 10.0, 1e-2])]
+        if k < 0.62:
+            return ["set", rng.choice(["target", "vary"]), 0, "active", rng.random() < 0.5]
+        j = rng.randrange(n)
+        if k < 0.78:
+            c = x0[j]
+            return ["set", "vary", j, "limits", rng.choice([None, [c - 3.0, c + 3.0], [c - 0.4, c + 0.4], [c - 3.0, None],
+                                                            [None, c + 3.0], [min(c, kstar[j]) - 0.1, max(c, kstar[j]) + 0.1]])]
+        if k < 0.9:
+            return ["set", "vary", j, "max_step", rng.choice([None, 0.01, 0.1, 0.5, 2.0])]
+        return ["set", "vary", j, "weight", rng.choice([1.0, 1.0, 0.5, 2.0, 3.0])]
+
+    if twin is None and rng.random() < {"C09": 0.3, "C10": 0.18, "C15": 0.18}[profile]:
+        if rng.random() < 0.45:
+            # tighten-and-refine: solve, tighten every tolerance, solve again on the same object
+            f_ = rng.choice([1e-3, 1e-5, 1e-8])
+            ops = ops + [["solve", None, True, gen_bro()]] + \
+                [["set", "target", i, "tol", (targets[i]["tol"] or 1e-6) * f_] for i in range(m)] + \
+                [["solve", rng.choice([None, None, 3]), True, gen_bro()]]
+        else:
+            new_ops = []
+            for op in ops:
+                if rng.random() < 0.5:
+                    new_ops += [gen_set() for _ in range(rng.choice([1, 1, 2]))]
+                new_ops.append(op)
+            ops = new_ops + ([gen_set(), rng.choice([["solve", None, True, False], ["step", 2, True, {}, False], ["tag", "t1"]])]
+                             if rng.random() < 0.6 else [])
+    # ---- every other public entry point of Optimize, interleaved with the modelled calls
+    if twin is None and rng.random() < {"C09": 0.15, "C10": 0.15, "C15": 0.35}[profile]:
+        for _ in range(rng.choice([1, 1, 2, 3])):
+            name, kw = rng.choice(FOREIGN)
+            fop = [name, kw["n"]] if name in ("run_jacobian",) else (["add_point", kw["tag"]] if name == "add_point_to_log"
+                                                                      else ["foreign", name, kw])
+            ops.insert(rng.randrange(len(ops) + 1), fop)
+        if rng.random() < 0.6:
+            ops.append(rng.choice([["tag", "t2"], ["step", 1, True, {}, False], ["solve", None, True, False], ["reload", 0]]))
+    # ---- rarely used forms of the constructors
+    ctor = {k: True for k in ("varylist", "targetlist", "scale", "action_target", "target_weight_none", "vary_weight_none",
+                               "solver", "solver_options", "name", "single_vary", "show_call_counter")
+            if rng.random() < 0.08}
     # an exception inside add_point_to_log (C15: the log must stay aligned): a disabled knob that sits outside
     # its limits is enabled, tag() then raises ValueError while it evaluates the point; later it is disabled again
     if profile == "C15" and twin is None and check_limits and rng.random() < 0.06:
@@ -264,7 +339,7 @@ def gen_case(rng, profile):
             x0[j] = vary[j]["limits"][1] + 0.3
             ops = [["enable", None, [j], None], ["tag", "t1"], ["disable", None, [j], None], ["tag", "t2"]] + ops
     return {"family": fam, "where": where, "fun": fun, "x0": x0, "vary": vary, "targets": targets, "opts": opts,
-            "ops": ops, "twin": twin, "timeout": 5.0}
+            "ops": ops, "twin": twin, "timeout": 5.0, "ctor": ctor}
 
 
 # ---------------------------------------------------------------------------
@@ -333,6 +408,10 @@ def emit_op(op, N):
     if k == "solve":
         _, n, tb, bro = op
         return f"OSolve {'None' if n is None else f'(Some {n})'} {cbool(tb)} {cbro(bro)}"
+    if k == "run_jacobian":
+        return f"OStep {op[1]} true (mkArgs None None None None None None) BroOff"
+    if k == "add_point":
+        return f"OTag {cn(N(op[1]))}"
     if k == "reload":
         return f"OReload {op[1]}"
     if k == "reload_tag":
@@ -374,23 +453,30 @@ def new_interner():
     return N
 
 
-def emit_case(case, res):
-    """Coq term of type tcase, or None when the run is outside the model
-    (non-finite values, timeout, an exception class the model has no name for)"""
-    if res["status"] not in ("ok", "ragged", "ctor_error"):
-        return None
-    N = new_interner()
+def emit_cfg(case, N):
     n = len(case["x0"])
     side = lambda x: "None" if x is None else f"(Some {cf(x)})"
     lims = clist(["None" if v["limits"] is None else f"(Some ({side(v['limits'][0])}, {side(v['limits'][1])}))" for v in case["vary"]])
     steps = clist([cf(1e-10 if v["step"] is None else v["step"]) for v in case["vary"]])
     maxs = clist(["None" if v["max_step"] is None else f"(Some {cf(v['max_step'])})" for v in case["vary"]])
     o = case["opts"]
-    cfg = (f"(mkCfg {cfl([v['weight'] for v in case['vary']])} {lims} {steps} {maxs} "
-           f"{clist([cn(N(v['tag'])) for v in case['vary']])} {clist([cn(N(f'k{j}')) for j in range(n)])} "
-           f"{cfl([t['value'] for t in case['targets']])} {cfl([float('nan') if t['tol'] is None else t['tol'] for t in case['targets']])} "
-           f"{cfl([t['weight'] for t in case['targets']])} {clist([cn(N(t['tag'])) for t in case['targets']])} "
-           f"{o['n_steps_max']} {cbool(o['assert_within_tol'])} {cbool(o['restore_if_fail'])} {cbool(o.get('check_limits', True))})")
+    return (f"(mkCfg {cfl([v['weight'] for v in case['vary']])} {lims} {steps} {maxs} "
+            f"{clist([cn(N(v['tag'])) for v in case['vary']])} {clist([cn(N(f'k{j}')) for j in range(n)])} "
+            f"{cfl([t['value'] for t in case['targets']])} {cfl([float('nan') if t['tol'] is None else t['tol'] for t in case['targets']])} "
+            f"{cfl([t['weight'] for t in case['targets']])} {clist([cn(N(t['tag'])) for t in case['targets']])} "
+            f"{o['n_steps_max']} {cbool(o['assert_within_tol'])} {cbool(o['restore_if_fail'])} {cbool(o.get('check_limits', True))} "
+            f"{cbl([bool(t.get('optimize_log', False)) for t in case['targets']])})")
+
+
+def emit_case(case, res):
+    """Coq term of type tcase, or None when the run is outside the model
+    (non-finite values, timeout, an exception class the model has no name for)"""
+    if res["status"] not in ("ok", "ragged", "ctor_error"):
+        return None
+    import copy
+    N = new_interner()
+    cur = copy.deepcopy(case)          # the configuration current at each call ("set" operations edit it)
+    cfg = emit_cfg(cur, N)
     t = res["tables"]
     if not t["deterministic"]:
         return None
@@ -400,6 +486,7 @@ def emit_case(case, res):
     ntab = clist([f"({jm(mm)}, {cfl(b)}, {cfl(x)})" for mm, b, x in t["newton"]])
     sfail = clist([jm(mm) for mm in t["svdfail"]])
     btab = clist([f"(({jm(k[0])}, {cfl(k[1])}, {cfl(k[2])}, {cfl(k[3])}, {cfl(k[4])}), {jm(j)})" for k, j in t["bro"]])
+    ltab = clist([f"({cf(x)}, {cf(y)})" for x, y in t.get("log10", [])])
     if res["status"] == "ctor_error":
         if res["ctor_error"] not in MODEL_ERRS:
             return None
@@ -408,17 +495,41 @@ def emit_case(case, res):
     else:
         init = f"(OOk, Some {emit_obs(res['init'], N)})"
         items = []
+        dirty = False
         for op, st in zip(case["ops"], res["steps"]):
+            kind = op[0]
+            if kind == "foreign":
+                items.append(f"TForeign {emit_obs(st['obs'], N)}")
+                continue
+            if kind == "set":
+                _, what, i, attr, val = op
+                if st["out"] != "ok":
+                    return None
+                if attr == "active":
+                    sel = f"(Some (SList [EIdx {i}]))"
+                    o_ = (f"{'OEnable' if val else 'ODisable'} " +
+                          (f"{sel} None None" if what == "target" else f"None {sel} None"))
+                    items.append(f"TOp {'(Some ' + emit_cfg(cur, N) + ')' if dirty else 'None'} ({o_}) false OOk {emit_obs(st['obs'], N)}")
+                    dirty = False
+                else:
+                    (cur["targets"] if what == "target" else cur["vary"])[i][attr] = val
+                    dirty = True
+                continue
             if st["out"] != "ok" and st["out"] not in MODEL_ERRS:
                 return None
-            items.append(f"({emit_op(op, N)}, {cbool(op[0] == 'clear')}, {emit_outc(st['out'])}, {emit_obs(st['obs'], N)})")
+            items.append(f"TOp {'(Some ' + emit_cfg(cur, N) + ')' if dirty else 'None'} ({emit_op(op, N)}) "
+                         f"{cbool(kind == 'clear')} {emit_outc(st['out'])} {emit_obs(st['obs'], N)}")
+            dirty = False
         ops = clist(items)
     return (f"(mkCase {cfg} {cfl(case['x0'])} {cbl([v['active'] for v in case['vary']])}\n  {ftab}\n  {ptab}\n  {ntab}\n  {sfail}\n"
-            f"  {btab}\n  {init}\n  {ops})")
+            f"  {btab}\n  {ltab}\n  {init}\n  {ops})")
 
 
 HEADER = ("From Coq Require Import List ZArith NArith PrimFloat.\nFrom XD Require Import model.Opt run.RunOpt.\n"
           "Import ListNotations.\n")
+
+
+META = {}      # what the runner reports about the implementation's API (public methods, constructor signatures)
 
 
 def run_cases(cases, workers=None, timeout=1800):
@@ -430,6 +541,7 @@ def run_cases(cases, workers=None, timeout=1800):
     out = []
     for r in rs:
         out += r["results"]
+        META.update({k: v for k, v in r.items() if k != "results"})
     return out
 
 
@@ -582,7 +694,57 @@ def distribution(cases, results):
                 d["rows_hit_limit"] += any(row["hit"])
                 d["rows_alpha_gt0"] += row["alpha"] > 0
                 d["rows_take_best"] += row["tag"] == "take_best"
+    d["reconfiguration_ops"] = {}
+    d["foreign_calls"] = {}
+    d["optimize_log_cases"] = sum(any(t.get("optimize_log") for t in c["targets"]) for c in cases)
+    used = set()
+    for c, r in zip(cases, results):
+        used |= set(r.get("ctor_used", []))
+        for op in c["ops"]:
+            if op[0] == "set":
+                k = f"{op[1]}.{op[3]}"
+                d["reconfiguration_ops"][k] = d["reconfiguration_ops"].get(k, 0) + 1
+        for name, st in r.get("foreign", []):
+            k = f"{name}:{'ok' if st == 'ok' else 'raised'}"
+            d["foreign_calls"][k] = d["foreign_calls"].get(k, 0) + 1
+    d["constructor_forms_used"] = sorted(used)
     return d
+
+
+# which constructor arguments the generator exercises (checked against the signatures the runner reports)
+CTOR_COVERAGE = {
+    "Vary": {"name": "yes", "container": "yes (a dict)", "limits": "None, two-sided, one-sided None / inf", "step": "None and values",
+             "weight": "values and None", "max_step": "None and values", "tag": "yes", "active": "True / False"},
+    "Target": {"tar": "integer index into the action's result (callables: no)", "value": "floats ('preserve': no)",
+               "tol": "values and None", "weight": "values and None", "scale": "yes (alias of weight)", "action": "yes",
+               "tag": "yes", "optimize_log": "True / False, enabled and disabled"},
+    "VaryList": {"vars": "one name per list", "container": "yes", "kwargs": "the Vary keywords"},
+    "TargetList": {"tars": "one index per list", "kwargs": "the Target keywords"},
+    "Optimize": {"vary": "list of Vary / VaryList, a single Vary", "targets": "list of Target / TargetList (tuples: no)",
+                 "restore_if_fail": "True / False", "solver": "None and 'jacobian' (the only implemented one)",
+                 "verbose": "False only (printing)", "assert_within_tol": "True / False", "n_steps_max": "1..25",
+                 "solver_options": "{} and {'n_steps_max': 20}; options that change JacobianSolver constants "
+                                   "(n_bisections, tol, min_step, max_rel_penalty_increase, error_on_penalty_increase) are NOT exercised: "
+                                   "the model fixes their defaults",
+                 "show_call_counter": "False / True", "check_limits": "True / False", "name": "yes",
+                 "kwargs": "NOT exercised (stored as tw_kwargs, unused by the optimizer)"},
+}
+
+
+def api_coverage(dist):
+    """public entry points of Optimize by introspection: modelled, exercised as foreign calls, never called"""
+    api = META.get("public_api", [])
+    modelled = set(META.get("modelled", []))
+    notc = META.get("not_called", {})
+    seen = {k.split(":")[0] for k in dist.get("foreign_calls", {})}
+    listed = {n for n, _ in FOREIGN}
+    out = {"public_methods": api, "modelled": sorted(modelled & set(api)), "foreign_calls_in_generator": sorted(listed & set(api)),
+           "foreign_calls_exercised_this_run": sorted(seen), "not_called": notc,
+           "unknown_new_methods": sorted(set(api) - modelled - listed - set(notc))}
+    sig = META.get("ctor_signatures", {})
+    out["constructor_arguments"] = {c: {a: CTOR_COVERAGE.get(c, {}).get(a, "NOT exercised (new argument)") for a in args}
+                                    for c, args in sig.items()}
+    return out
 
 
 CORPUS_DIR = os.path.join(vlib.VERIF, "tools", "corpus")
@@ -607,8 +769,11 @@ def run_property(ctx, pid, n_quick, n_thorough):
     ctx.rule = ("random deterministic merit functions r = A k + b + Q k^2 + T sin(U k + P) (families linear, quadratic, trigonometric, "
                 "inconsistent, rank-deficient; optional fault region where the user function raises), 1..4 knobs, 1..5 targets, "
                 "start inside the limits (3% deliberately outside), solution inside/outside/far from the limits, per-knob limits, weights, "
-                "max_step, tolerances, n_steps_max, Broyden off/on/every k, disabled knobs and targets, operation sequences mixing "
-                "solve/step(with temporary enable_*/disable_* arguments)/reload/tag/enable/disable/clear_log; profile " + pid +
+                "max_step, tolerances, n_steps_max, Broyden off/on/every k, disabled knobs and targets, optimize_log targets, operation sequences mixing "
+                "solve/step(with temporary enable_*/disable_* arguments)/reload/tag/enable/disable/clear_log, re-assignments of Target/Vary "
+                "attributes between calls (tol, value, weight, active, limits, max_step), every other public entry point of Optimize "
+                "(run_simplex, run_ls_*, run_bfgs, run_direct, views, status tables, deprecated enable/disable methods) interleaved, "
+                "rarely used constructor forms; profile " + pid +
                 "; non-trivial = at least one Jacobian step and the mechanism of the property exercised (see feature_key); "
                 "distinct by (function, start, ops, options)")
     proof_ok = vlib.standard_proof_part(ctx, f"props/{pid}.v", allowed_axioms=(), extra_targets=["run/RunOpt.vo"])
@@ -642,6 +807,10 @@ def run_property(ctx, pid, n_quick, n_thorough):
             st = "exception class outside the model's enum or non-deterministic table"
         dist["outside_model_reasons"][st] = dist["outside_model_reasons"].get(st, 0) + 1
     ctx.cov["input_distribution"] = dist
+    ctx.cov["api_coverage"] = api_coverage(dist)
+    if ctx.cov["api_coverage"]["unknown_new_methods"]:
+        ctx.notes.append("public methods of Optimize neither modelled nor in the generator's foreign-call list: " +
+                         ", ".join(ctx.cov["api_coverage"]["unknown_new_methods"]))
     okc = [i for i, r in enumerate(results) if r["status"] == "ok" and r["steps"]]
     ctx.samples = [{"case": cases[i], "outcomes": [s["out"] for s in results[i]["steps"]],
                     "final_knobs": results[i]["steps"][-1]["obs"]["knobs"], "log_rows": results[i]["steps"][-1]["obs"]["loglen"]}
